@@ -197,6 +197,9 @@ Definition transfer (s : state) (ks : nat) (swells : arr string) (kd : nat) (dwe
       let vs := broadcast vs nmax in
       if negb ((length sw =? length dw)%nat && (length dw =? length vs)%nat) then (s, Some EReject)
       else if existsb (fun v => Qltb v 0) vs then (s, Some EReject)
+      else if existsb (fun w => match lw_index Ls w with None => true | Some _ => false end) sw
+              || existsb (fun w => match lw_index Ld w with None => true | Some _ => false end) dw
+           then (s, Some EReject)
       else
         match optimize_partition_by (is_trough (lw_geom Ls)) (is_trough (lw_geom Ld)) pb with
         | Err e => (s, Some EReject)
